@@ -42,7 +42,7 @@ _ELEMS = [0, "cell", 2.5, (1, 2), None]
 
 def sources(src: int, e0: int, e1: int, e2: int, e3: int, v0: int, v1: int, v2: int, v3: int, mut: int) -> bool:
     """
-    pre: 0 <= src < 3
+    pre: 0 <= src < 4
     pre: 0 <= e0 < len(_ELEMS) and 0 <= e1 < len(_ELEMS) and 0 <= e2 < len(_ELEMS) and 0 <= e3 < len(_ELEMS)
     pre: 0 <= mut < 4
     post: _
@@ -76,6 +76,12 @@ def sources(src: int, e0: int, e1: int, e2: int, e3: int, v0: int, v1: int, v2: 
             # evaluated exactly once per cell, in id order, with that cell's coordinates and the cell table
             if [c[0] for c in calls] != cells or not all(c[1] is env.cells for c in calls):
                 return hx.end(hx.fail("generator calls", got=[c[0] for c in calls], exp=cells))
+        elif src == 3:                                  # the bundled constant generator; the constant may be a sequence
+            hx.reach('constant')
+            ck = e0 % 4
+            const = vals[0] if ck == 0 else [vals[i] for i in range(n)] if ck == 1 else tuple(vals[i] for i in range(n)) if ck == 2 else (1, 2)
+            env.add_cell_component("c", Env.ConstantGenerator(const))
+            want = [const] * n
         elif src == 1:                                  # a list whose element kinds the solver chooses (mixed types!)
             hx.reach('list')
             es = [e0, e1, e2, e3][:n]
@@ -99,7 +105,7 @@ def sources(src: int, e0: int, e1: int, e2: int, e3: int, v0: int, v1: int, v2: 
                                                                  isinstance(a, (int, np.integer)) and not isinstance(a, bool) and a == b)
             if not same:
                 return hx.end(hx.fail("cell %d does not hold its source's value" % i, got=repr(a), exp=repr(b),
-                                      source_kind=["callable", "list", "ndarray"][src]))
+                                      source_kind=["callable", "list", "ndarray", "ConstantGenerator"][src]))
         if list(env.cells['pos']) != cells:
             return hx.end(hx.fail("adding a component changed the set of cells"))
     return hx.end(True)
@@ -188,7 +194,17 @@ def lookup_generator(x: int, y: int, z: int, t0: int, t1: int, t2: int, t3: int,
         # called with the position in the table's own dimensionality (int / 2-tuple / 3-tuple)
         hx.reach('called')
         pos = cx if dim == 1 else (cx, cy) if dim == 2 else (cx, cy, cz)
-        return hx.end(gen(pos, None) is want or hx.fail("lookup (direct call)", dim=dim))
+        if gen(pos, None) is not want:
+            return hx.end(hx.fail("lookup (direct call)", dim=dim))
+        # the caller edits the table in place and uses the SAME generator again: the new entry is what a cell gets
+        new = t0 + 1
+        if dim == 1:
+            table[cx] = new
+        elif dim == 2:
+            table[cx][cy] = new
+        else:
+            table[cx][cy][cz] = new
+        return hx.end(gen(pos, None) is new or hx.fail("lookup after the table was edited in place (stale copy?)", dim=dim))
     # called the way a world calls it: with the 3-tuple from the position table
     hx.reach('called')
     try:
@@ -230,9 +246,9 @@ def obligations(tier):
            Env.LineWorld.__init__, Env.GridWorld.__init__)
     worlds = ["line", "grid", "cube"] if tier == "quick" else ["line", "grid", "cube", "flat_mid", "point"]
     obs = [
-        X("sources", sources, parts=[{"world": w, "src": sk} for w in worlds for sk in (0, 2)] +
+        X("sources", sources, parts=[{"world": w, "src": sk} for w in worlds for sk in (0, 2, 3)] +
           [{"world": w, "src": 1, "mut": mu} for w in worlds for mu in ((0, 2) if tier == "quick" else (0, 1, 2, 3))],
-          labels=("callable", "list", "ndarray"), labels_for=lambda p: (("callable", "list", "ndarray")[p["src"]],),
+          labels=("callable", "list", "ndarray", "constant"), labels_for=lambda p: (("callable", "list", "ndarray", "constant")[p["src"]],),
           timeout=1200, encoded=enc),
         X("history", history, parts=[{"world": w, "k": k} for w in (("line", "grid") if tier == "quick" else worlds)
                                      for k in ((2,) if tier == "quick" else (2, 3))],
